@@ -150,7 +150,10 @@ def r_fallback(ctx, rule='R-FALLBACK'):
 
 def r_centroid(ctx, rule='R-CENTROID'):
     F = ctx.F
-    tms = [f for f in F.lib_fns() if f.path.startswith('distance::two_means')]
+    # the two-means functions themselves; a closure nested in them counts only when it carries a centroid update
+    # (a `choose` callback handed to a shared refinement helper is not an iteration body)
+    tms = [f for f in F.lib_fns() if f.path.startswith('distance::two_means')
+           and ('{closure' not in f.path or any(c.callee.endswith('Distance::update_mean') for c in f.calls()))]
     ctx.floor(rule, 'two-means functions', len(tms), 2)
     for f in tms:
         rng = [s for c in f.calls() if c.callee.endswith('Iterator::next') for s in walk(c.arg_term(0)) if s[0] == 'agg' and s[1].endswith('ops::Range')]
